@@ -104,6 +104,7 @@ package ply
 //@     invariant indices != nil && indices.data == model.indices && texData != nil && texData.data == model.v2Data["TexCoord"]
 //@     invariant written(out) == old(written(out)) + 38 * (i / 3)
 //@     invariant fit: forall c int :: 0 <= c && c < len(model.indices) ==> 0 <= model.indices[c] && model.indices[c] < 4294967296
+//@     invariant count_bytes: buf[0] == 3 && buf[13] == 6
 //@     step first_index_slot: b32(buf, 1) == model.indices[prev(i)]
 //@     step second_index_slot: b32(buf, 5) == model.indices[prev(i) + 1]
 //@     step third_index_slot: b32(buf, 9) == model.indices[prev(i) + 2]
@@ -116,6 +117,7 @@ package ply
 //@     invariant indices != nil && indices.data == model.indices
 //@     invariant written(out) == old(written(out)) + 13 * (i / 3)
 //@     invariant fit: forall c int :: 0 <= c && c < len(model.indices) ==> 0 <= model.indices[c] && model.indices[c] < 4294967296
+//@     invariant count_byte: buf[0] == 3
 //@     step first_index_slot: b32(buf, 1) == model.indices[prev(i)]
 //@     step second_index_slot: b32(buf, 5) == model.indices[prev(i) + 1]
 //@     step third_index_slot: b32(buf, 9) == model.indices[prev(i) + 2]
@@ -126,6 +128,8 @@ package ply
 //@ func builtVector1PropertyWriter.Write
 //@   props C04
 //@   modifies bvpw.buf, ghost written
+//@   ensures float_slot: bvpw.format == Float ==> b32(bvpw.buf, 0) == f32bits(f32(bvpw.arr.data[i]))
+//@   ensures double_slot: bvpw.format == Double ==> b64(bvpw.buf, 0) == f64bits(bvpw.arr.data[i])
 //@   requires bvpw.arr != nil && 0 <= i && i < len(bvpw.arr.data)
 //@   requires binary_scalar_types: bvpw.format == UChar || bvpw.format == Int || bvpw.format == Float || bvpw.format == Double
 //@   requires buffer_is_one_record: len(bvpw.buf) == 1 * bvpw.format.Size()
@@ -135,6 +139,8 @@ package ply
 //@ func builtVector2PropertyWriter.Write
 //@   props C04
 //@   modifies bv3pw.buf, ghost written
+//@   ensures float_slots: bv3pw.format == Float ==> b32(bv3pw.buf, 0) == f32bits(f32(bv3pw.arr.data[i].X())) && b32(bv3pw.buf, 4) == f32bits(f32(bv3pw.arr.data[i].Y()))
+//@   ensures double_slots: bv3pw.format == Double ==> b64(bv3pw.buf, 0) == f64bits(bv3pw.arr.data[i].X()) && b64(bv3pw.buf, 8) == f64bits(bv3pw.arr.data[i].Y())
 //@   requires bv3pw.arr != nil && 0 <= i && i < len(bv3pw.arr.data)
 //@   requires binary_scalar_types: bv3pw.format == UChar || bv3pw.format == Int || bv3pw.format == Float || bv3pw.format == Double
 //@   requires buffer_is_one_record: len(bv3pw.buf) == 2 * bv3pw.format.Size()
@@ -144,6 +150,8 @@ package ply
 //@ func builtVector3PropertyWriter.Write
 //@   props C04
 //@   modifies bv3pw.buf, ghost written
+//@   ensures float_slots: bv3pw.format == Float ==> b32(bv3pw.buf, 0) == f32bits(f32(bv3pw.arr.data[i].X())) && b32(bv3pw.buf, 4) == f32bits(f32(bv3pw.arr.data[i].Y())) && b32(bv3pw.buf, 8) == f32bits(f32(bv3pw.arr.data[i].Z()))
+//@   ensures double_slots: bv3pw.format == Double ==> b64(bv3pw.buf, 0) == f64bits(bv3pw.arr.data[i].X()) && b64(bv3pw.buf, 8) == f64bits(bv3pw.arr.data[i].Y()) && b64(bv3pw.buf, 16) == f64bits(bv3pw.arr.data[i].Z())
 //@   requires bv3pw.arr != nil && 0 <= i && i < len(bv3pw.arr.data)
 //@   requires binary_scalar_types: bv3pw.format == UChar || bv3pw.format == Int || bv3pw.format == Float || bv3pw.format == Double
 //@   requires buffer_is_one_record: len(bv3pw.buf) == 3 * bv3pw.format.Size()
@@ -153,6 +161,8 @@ package ply
 //@ func binaryVector4PropertyWriter.Write
 //@   props C04
 //@   modifies bv4pw.buf, ghost written
+//@   ensures float_slots: bv4pw.format == Float ==> b32(bv4pw.buf, 0) == f32bits(f32(bv4pw.arr.data[i].X())) && b32(bv4pw.buf, 4) == f32bits(f32(bv4pw.arr.data[i].Y())) && b32(bv4pw.buf, 8) == f32bits(f32(bv4pw.arr.data[i].Z())) && b32(bv4pw.buf, 12) == f32bits(f32(bv4pw.arr.data[i].W()))
+//@   ensures double_slots: bv4pw.format == Double ==> b64(bv4pw.buf, 0) == f64bits(bv4pw.arr.data[i].X()) && b64(bv4pw.buf, 8) == f64bits(bv4pw.arr.data[i].Y()) && b64(bv4pw.buf, 16) == f64bits(bv4pw.arr.data[i].Z()) && b64(bv4pw.buf, 24) == f64bits(bv4pw.arr.data[i].W())
 //@   requires bv4pw.arr != nil && 0 <= i && i < len(bv4pw.arr.data)
 //@   requires binary_scalar_types: bv4pw.format == UChar || bv4pw.format == Int || bv4pw.format == Float || bv4pw.format == Double
 //@   requires buffer_is_one_record: len(bv4pw.buf) == 4 * bv4pw.format.Size()
